@@ -135,11 +135,12 @@ Record col := mk_col {
   c_enc : enc;                 (* encoding in force *)
   c_switched : bool;           (* hasSwitchedToPlain *)
   c_ordinal : N;               (* rowGroupOrdinal *)
-  c_acc : colacc }.
+  c_acc : colacc;
+  c_plain : list N }.          (* rows held by plainColumnBuffer while it is NOT the current buffer *)
 
 Definition enc0 (cc : colcfg) : enc := if cc_dict cc then EncDict else EncPlain.
 
-Definition col_init (cc : colcfg) : col := mk_col cc (cc_path cc) (enc0 cc) false 0 acc0.
+Definition col_init (cc : colcfg) : col := mk_col cc (cc_path cc) (enc0 cc) false 0 acc0 [].
 
 (* func (c *ColumnWriter) reset() *)
 Definition col_reset (c : col) : col :=
@@ -147,16 +148,17 @@ Definition col_reset (c : col) : col :=
          (if c_switched c then enc0 (c_cfg c) else c_enc c)   (* if c.hasSwitchedToPlain { c.encoding = c.originalEncoding } *)
          false
          (c_ordinal c)                                        (* not touched *)
-         acc0.
+         acc0                                                 (* c.columnBuffer = c.originalColumnBuffer; c.columnBuffer.Reset(); ... *)
+         [].                                                  (* c.plainColumnBuffer.Reset() (since 2943698) *)
 
 (* writeRowGroup's deferred function: rg.reset(), then the ordinal of the next
    row group when the file is encrypted *)
 Definition col_next_rg (encrypted : bool) (next : N) (c : col) : col :=
   let r := col_reset c in
-  mk_col (c_cfg r) (c_path r) (c_enc r) (c_switched r) (if encrypted then next else c_ordinal r) (c_acc r).
+  mk_col (c_cfg r) (c_path r) (c_enc r) (c_switched r) (if encrypted then next else c_ordinal r) (c_acc r) (c_plain r).
 
 Definition set_ordinal (encrypted : bool) (o : N) (c : col) : col :=
-  mk_col (c_cfg c) (c_path c) (c_enc c) (c_switched c) (if encrypted then o else c_ordinal c) (c_acc c).
+  mk_col (c_cfg c) (c_path c) (c_enc c) (c_switched c) (if encrypted then o else c_ordinal c) (c_acc c) (c_plain c).
 
 Definition memN (x : N) (l : list N) : bool := existsb (N.eqb x) l.
 
@@ -180,7 +182,7 @@ Definition merge_stats (s p : option (N * N)) : option (N * N) :=
   end.
 
 Definition set_acc (c : col) (a : colacc) : col :=
-  mk_col (c_cfg c) (c_path c) (c_enc c) (c_switched c) (c_ordinal c) a.
+  mk_col (c_cfg c) (c_path c) (c_enc c) (c_switched c) (c_ordinal c) a (c_plain c).
 
 Section Machine.
   (** the row encoding: encoding in force, dictionary contents, rows of the page *)
@@ -212,7 +214,11 @@ Section Machine.
                           (a_pageidx a ++ match mm with Some m => [m] | None => [] end)
                           (a_locs a ++ [(a_size a, page_size p, a_numrows a)])
                           (a_seen a ++ a_buffer a) in
-      if fallback then mk_col cc (c_path c) EncPlain true (c_ordinal c) a'
+      if fallback then
+        (* fallbackDictionaryToPlain: c.columnBuffer = c.plainColumnBuffer, with the rows it holds *)
+        mk_col cc (c_path c) EncPlain true (c_ordinal c)
+               (mk_colacc (c_plain c) (a_pages a') (a_dict a') (a_numrows a') (a_nvalues a') (a_size a') (a_stats a')
+                          (a_pageidx a') (a_locs a') (a_seen a')) []
       else set_acc c a'
     end.
 
@@ -477,7 +483,7 @@ Section Machine.
   Definition col_reset_pinned (finished : bool) (c : col) : col :=
     let r := col_reset c in
     mk_col (c_cfg r) (if finished then map (fun _ => 0) (c_path r) else c_path r)
-           (c_enc r) (c_switched r) (c_ordinal r) (c_acc r).
+           (c_enc r) (c_switched r) (c_ordinal r) (c_acc r) (c_plain r).
 
   Definition lreset_pinned : lstate -> lstate :=
     lreset_with (fun l => map (fun c => set_ordinal (cf_encrypted (l_cfg l)) 0
@@ -487,6 +493,18 @@ Section Machine.
   (* (2) before 949139e: rowGroupOrdinal kept the row group count of the previous file *)
   Definition lreset_pinned_ordinal : lstate -> lstate :=
     lreset_with (fun l => map col_reset (l_cols l)) l_cfgmd.
+
+  (* (4) before 2943698: after a fallback the current buffer is the PLAIN buffer;
+     reset switched back to the original buffer and emptied only that one, so
+     the rows buffered since the last page stayed in the PLAIN buffer *)
+  Definition col_reset_pinned_plain (c : col) : col :=
+    let r := col_reset c in
+    mk_col (c_cfg r) (c_path r) (c_enc r) (c_switched r) (c_ordinal r) (c_acc r)
+           (if c_switched c then a_buffer (c_acc c) else c_plain c).
+
+  Definition lreset_pinned_plain : lstate -> lstate :=
+    lreset_with (fun l => map (fun c => set_ordinal (cf_encrypted (l_cfg l)) 0 (col_reset_pinned_plain c)) (l_cols l))
+                l_cfgmd.
 
   (* (3) before cd20a46: the metadata list was not touched *)
   Definition lreset_pinned_kv : lstate -> lstate :=
